@@ -87,7 +87,24 @@ pub struct Limits3 {
 }
 
 fn grid(full: bool) -> Vec<Limits3> {
+    grid_for(full, false)
+}
+
+fn grid_for(full: bool, thorough: bool) -> Vec<Limits3> {
     let mut v = Vec::new();
+    if thorough && full {
+        // the quantifier's upper ends
+        v.push(Limits3 {
+            iterations: 12,
+            forks: 60,
+            gas: BLOCK_GAS_LIMIT,
+        });
+        v.push(Limits3 {
+            iterations: 12,
+            forks: 1,
+            gas: 300,
+        });
+    }
     if full {
         for i in [1, 2, 3] {
             for f in [1, 2, 3] {
@@ -384,7 +401,7 @@ impl Check for C03 {
                     let Some(code) = cf_expand(&seq) else { return true };
                     // full grid up to length 4 (5 thorough), three settings beyond
                     let full = ix.len() <= if tier.thorough() { 5 } else { 4 };
-                    for lim in grid(full) {
+                    for lim in grid_for(full, tier.thorough()) {
                         ctx.case(|| json!({"bytes": hex(&code), "limits": format!("{lim:?}")}));
                         ctx.count("vm_runs", 1);
                         match check_vm(&code, &lim) {
